@@ -137,6 +137,22 @@ func newScrypt(r *h.Rand, logN, maxWF int) *party {
 	for i := range pw {
 		pw[i] = byte(33 + r.Intn(94))
 	}
+	// a passphrase is a byte string: line ends, blanks and bytes above 0x7f are part of it wherever they stand
+	// (NUL is left out: trailing NULs are the known finding K1 of C04)
+	if r.Intn(3) == 0 {
+		odd := []string{"\n", "\r", "\r\n", " ", "\t", "\x80", "\xff", "\xc3\xa9", "\u00a0", "\u2028"}
+		switch r.Intn(4) {
+		case 0:
+			pw = append(pw, odd[r.Intn(len(odd))]...)
+		case 1:
+			pw = append([]byte(odd[r.Intn(len(odd))]), pw...)
+		case 2:
+			pw = []byte(odd[r.Intn(len(odd))] + odd[r.Intn(len(odd))])
+		default:
+			k := r.Intn(len(pw) + 1)
+			pw = append(append(append([]byte(nil), pw[:k]...), odd[r.Intn(len(odd))]...), pw[k:]...)
+		}
+	}
 	rec, _ := age.NewScryptRecipient(string(pw))
 	rec.SetWorkFactor(logN)
 	id, _ := age.NewScryptIdentity(string(pw))
